@@ -46,6 +46,14 @@ CLAIMED = {
              text="TLC acts as the independent big-integer implementation: every recorded add/sub/neg/double/mul/square/invert/pow/sqrt/from_repr/to_repr call on lattice-crossed and uniform operands is recomputed, and the constants are checked against their defining equations.",
              note="2^258 operand pairs are sampled (boundary lattice squared + seeded uniform); (p-1)/2 prime is trusted for the generator criterion.",
              ref="5/C07"),
+ "C03": dict(level="model_checking", technique="TLC on MC_Secrecy (Star.tla knowledge closure with an explicit XOR-of-ciphertexts rule) over every observation set; constant-nonce negative model refuted; on the real code: clear-text scan, every 16/32-byte window of the report tried as key, XOR-difference test on every 16-byte window of pairs/triples of sub-threshold reports",
+             text="Keystream reuse is a design-level property of the dataflow (which key/nonce feeds the cipher), decided by model checking the eavesdropper's closure; the binding checks the same three statements on real encoded reports.",
+             note="Ideal stream cipher in the model; computational secrecy is not claimed. XOR test false-alarm probability 2^-128 per window.",
+             ref="5/C03"),
+ "C04": dict(level="model_checking", technique="TLC enumerates all 147 (m,e,t) triples / 10 731 pairs over a 2-symbol alphabet (incl. 132 boundary-shifted pairs) on MC_Derive with the framed Strobe transcript (unframed negative model refuted); equality-pattern conformance of real randomness/tag/key bytes under valuations x one-bit-apart threshold maps",
+             text="The family of boundary-shifted and prefix-related triples is enumerated, not sampled; the real derivation must reproduce exactly the model's equality classes, with independent clients and differing associated data.",
+             note="Ideal hash; strings longer than two symbols and other thresholds are covered only through the valuations (symbol images up to 700 bytes).",
+             ref="5/C04"),
 }
 NA_REASON = "check not built yet in this round (planned: see DESIGN.md section 5); not claimed until its machinery exists"
 
